@@ -228,7 +228,8 @@ def scenarios(thorough):
             sc_ahb("ahb3fc", "Muss [1] U [901] U [902] Soll [2] U [503][903] Kann [3][904] U [504]", {1: "U", 2: "U", 3: "F"}, text="q3q4"),
             sc_packages("pk5", "(([1P] O [2P]) U [3P]) X ([4P] U [1P])", {"1P": "[1]", "2P": "[2]", "3P": "[3] U [4]", "4P": "[5][901]"}),
             sc_ahb("ahbpk3", "Muss [1P] U [2P] Soll [3P] O [4] Kann [1P]", {1: "U", 2: "F", 3: "U", 4: "U"}, text="z", packages={"1P": "[1]", "2P": "[2]", "3P": "[3]"}),
-            sc_validity("valid2", "Muss [1] Soll [2]"),
+            sc_concurrent("conc2pk", "Muss [1] U [502] Soll [2] U [501][902]",
+                          [dict(rc={1: "U", 2: "F"}, fc={902: True}, hints={501: "h1 of a", 502: "h2 of a"}), dict(rc={1: "F", 2: "K"}, fc={902: False}, hints={501: "h1 of b", 502: "h2 of b"})]),
         ]
     return s
 
